@@ -2,6 +2,7 @@ package rules
 
 import (
 	"fmt"
+	"go/token"
 	"go/types"
 	"sort"
 	"strings"
@@ -14,6 +15,7 @@ import (
 func init() {
 	const tf = "internal/filetransfer/tar.go"
 	const hs = "internal/health/server.go"
+	const sf = "internal/filetransfer/stream.go"
 	register(&Check{
 		ID: "C27", Level: "other",
 		Technique: "link-aware containment: backward path-flow from every mutating file-system sink to archive/tar.Header.Name/Linkname, with the resolve-and-contain helper as the only barrier",
@@ -112,6 +114,26 @@ func init() {
 			{Name: "link created by a closure, target check dropped", ExpectRule: "C27.R2", ExpectKey: "os.Symlink", Edits: []Edit{
 				{File: tf, Old: "\t\t\tif err := os.Symlink(header.Linkname, targetPath); err != nil {\n", New: "\t\t\tcreate := func() error { return os.Symlink(header.Linkname, targetPath) }\n\t\t\tif err := create(); err != nil {\n"},
 				{File: tf, Old: "\t\t\tlinkDir, _ := filepath.Split(targetPath)\n\t\t\tif _, err := containedPath(realDest, linkDir+filepath.FromSlash(header.Linkname), true); err != nil {\n\t\t\t\treturn fmt.Errorf(\"symlink target escapes destination: %s -> %s\", targetPath, header.Linkname)\n\t\t\t}\n", New: ""},
+			}},
+			// ---- round 5: evidence for "this component does not exist" in the real-path resolver
+			{Name: "resolver fast path: last component declared missing on the word of os.Stat", ExpectRule: "C27.R5", ExpectKey: "resolvePath", Edits: []Edit{
+				{File: sf, Old: "\trest := \"\"\n\tcur := path\n\tfor hops := 0; ; {\n", New: "\trest := \"\"\n\tcur := path\n\tif _, err := os.Stat(cur); os.IsNotExist(err) {\n\t\tif dir, file := filepath.Split(cur); file != \"\" && file != \".\" && file != \"..\" && len(dir) > len(filepath.VolumeName(dir))+1 {\n\t\t\trest, cur = file, dir[:len(dir)-1]\n\t\t}\n\t}\n\tfor hops := 0; ; {\n"},
+			}},
+			{Name: "resolver fast path: last component declared missing because os.Open fails", ExpectRule: "C27.R5", ExpectKey: "resolvePath", Edits: []Edit{
+				{File: sf, Old: "\trest := \"\"\n\tcur := path\n\tfor hops := 0; ; {\n", New: "\trest := \"\"\n\tcur := path\n\tif f, err := os.Open(cur); err == nil {\n\t\tf.Close()\n\t} else if os.IsNotExist(err) {\n\t\tif dir, file := filepath.Split(cur); dir != \"\" && file != \"\" && file != \"..\" {\n\t\t\trest, cur = file, dir\n\t\t}\n\t}\n\tfor hops := 0; ; {\n"},
+			}},
+			{Name: "resolver fast path: os.Stat of the whole path, Dir/Base split", ExpectRule: "C27.R5", ExpectKey: "resolvePath", Edits: []Edit{
+				{File: sf, Old: "\trest := \"\"\n\tcur := path\n\tfor hops := 0; ; {\n", New: "\trest := \"\"\n\tcur := path\n\tif _, serr := os.Stat(path); os.IsNotExist(serr) && filepath.Base(path) != \"..\" {\n\t\trest, cur = filepath.Base(path), filepath.Dir(path)\n\t}\n\tfor hops := 0; ; {\n"},
+			}},
+			{Name: "resolver no longer looks for a dangling link before stripping a component", ExpectRule: "C27.R5", ExpectKey: "resolvePath", Edits: []Edit{
+				{File: sf, Old: "\t\tif target, lerr := os.Readlink(cur); lerr == nil {\n", New: "\t\tif target, lerr := \"\", error(os.ErrNotExist); lerr == nil {\n"},
+			}},
+			{Name: "rewrite: resolver fast path on os.Lstat evidence", Edits: []Edit{
+				{File: sf, Old: "\trest := \"\"\n\tcur := path\n\tfor hops := 0; ; {\n", New: "\trest := \"\"\n\tcur := path\n\tif _, err := os.Lstat(cur); os.IsNotExist(err) {\n\t\tif dir, file := filepath.Split(cur); file != \"\" && file != \".\" && file != \"..\" && len(dir) > len(filepath.VolumeName(dir))+1 {\n\t\t\trest, cur = file, dir[:len(dir)-1]\n\t\t}\n\t}\n\tfor hops := 0; ; {\n"},
+			}},
+			{Name: "rewrite: dangling-link step and component stripping extracted into helpers", Edits: []Edit{
+				{File: sf, Old: "\t\tif target, lerr := os.Readlink(cur); lerr == nil {\n\t\t\tif hops++; hops > 32 {\n\t\t\t\treturn \"\", fmt.Errorf(\"too many levels of symbolic links: %s\", path)\n\t\t\t}\n\t\t\tif !filepath.IsAbs(target) {\n\t\t\t\tdir, _ := filepath.Split(cur)\n\t\t\t\ttarget = dir + target\n\t\t\t}\n\t\t\tcur = target\n\t\t\tcontinue\n\t\t}\n", New: "\t\tif target, dangling := danglingTarget(cur); dangling {\n\t\t\tif hops++; hops > 32 {\n\t\t\t\treturn \"\", fmt.Errorf(\"too many levels of symbolic links: %s\", path)\n\t\t\t}\n\t\t\tcur = target\n\t\t\tcontinue\n\t\t}\n"},
+				{File: sf, Old: "// resolveParent is resolvePath for operations", New: "func danglingTarget(p string) (string, bool) {\n\ttarget, err := os.Readlink(p)\n\tif err != nil {\n\t\treturn \"\", false\n\t}\n\tif filepath.IsAbs(target) {\n\t\treturn target, true\n\t}\n\tdir, _ := filepath.Split(p)\n\treturn dir + target, true\n}\n\n// resolveParent is resolvePath for operations"},
 			}},
 			// ---- round 4
 			{Name: "follow flag is 'entry is a directory': regular files keep their last component", ExpectRule: "C27.R3", ExpectKey: "os.OpenFile", Edits: []Edit{
@@ -360,6 +382,165 @@ func (cx *c27Ctx) consumerSites(f *ssa.Function, v ssa.Value, target *ssa.Functi
 	return out
 }
 
+func c27CallsEvalSymlinks(fn *ssa.Function) bool {
+	for _, c := range kit.Calls(fn) {
+		if t, ok := kit.CallTargets(c); ok {
+			for _, f := range t {
+				if c26IsEvalSymlinksFn(f) {
+					return true
+				}
+			}
+		}
+	}
+	return false
+}
+
+// c27ProbeKind classifies a function as a file-system probe: +1 it only observes names
+// without following a link in the last component (os.Lstat, os.Readlink, or a repository
+// helper built from them and from no following probe), -1 it follows links (os.Stat,
+// os.Open*, os.ReadFile, os.ReadDir, filepath.EvalSymlinks, or a helper containing one), 0 neither.
+func c27ProbeKind(f *ssa.Function, depth int) int {
+	if f == nil {
+		return 0
+	}
+	if f.Blocks == nil || !kit.IsRepoPkg(kit.FuncPkgPath(f)) {
+		if f.Pkg == nil || f.Signature.Recv() != nil {
+			return 0
+		}
+		switch f.Pkg.Pkg.Path() + "." + f.Name() {
+		case "os.Lstat", "os.Readlink":
+			return 1
+		case "os.Stat", "os.Open", "os.OpenFile", "os.ReadFile", "os.ReadDir", "path/filepath.EvalSymlinks", "path/filepath.Glob", "io/ioutil.ReadFile", "io/ioutil.ReadDir":
+			return -1
+		}
+		return 0
+	}
+	if depth > 2 {
+		return 0
+	}
+	kind := 0
+	for _, c := range kit.Calls(f) {
+		t, ok := kit.CallTargets(c)
+		if !ok {
+			continue
+		}
+		for _, g := range t {
+			switch c27ProbeKind(g, depth+1) {
+			case -1:
+				return -1
+			case 1:
+				kind = 1
+			}
+		}
+	}
+	return kind
+}
+
+// checkRemainderEvidence decides R5 for one resolver function.
+func (cx *c27Ctx) checkRemainderEvidence(r *kit.Report, fn *ssa.Function) {
+	p := cx.p
+	// branches on the result of a no-follow probe
+	tests := map[*ssa.BasicBlock]bool{}
+	for _, b := range fn.Blocks {
+		if len(b.Instrs) == 0 {
+			continue
+		}
+		ifi, isIf := b.Instrs[len(b.Instrs)-1].(*ssa.If)
+		if !isIf {
+			continue
+		}
+		for x := range (&kit.PathFlow{Prog: p, Within: fn}).Walk(ifi.Cond).Visited {
+			if c, _, ok := kit.ResultOf(x); ok {
+				if t, ok := kit.CallTargets(c); ok {
+					for _, g := range t {
+						if c27ProbeKind(g, 0) == 1 {
+							tests[b] = true
+						}
+					}
+				}
+			}
+		}
+	}
+	// places where a component enters the remainder of a returned resolved+remainder path
+	type update struct {
+		v   ssa.Value
+		loc *ssa.BasicBlock
+	}
+	var updates []update
+	seen := map[ssa.Value]bool{}
+	var visit func(v ssa.Value, loc *ssa.BasicBlock)
+	visit = func(v ssa.Value, loc *ssa.BasicBlock) {
+		switch x := v.(type) {
+		case *ssa.Const:
+			return
+		case *ssa.Phi:
+			if seen[x] {
+				return
+			}
+			seen[x] = true
+			for i, e := range x.Edges {
+				visit(e, x.Block().Preds[i])
+			}
+			return
+		case *ssa.BinOp:
+			if x.Op == token.ADD {
+				visit(x.X, x.Block())
+				visit(x.Y, x.Block())
+				return
+			}
+		case *ssa.Call:
+			if cal := kit.CalleeOf(x); cal.Pkg == "path/filepath" && cal.Name == "Join" && len(x.Call.Args) == 1 {
+				if seen[x] {
+					return
+				}
+				seen[x] = true
+				for _, e := range kit.VariadicElems(x.Call.Args[0]) {
+					visit(e, x.Block())
+				}
+				return
+			}
+		}
+		updates = append(updates, update{v, loc})
+	}
+	for _, ret := range kit.Returns(fn) {
+		v := kit.ReturnResult(ret, 0)
+		var tails []ssa.Value
+		switch x := v.(type) {
+		case *ssa.Call:
+			if cal := kit.CalleeOf(x); cal.Pkg == "path/filepath" && cal.Name == "Join" && len(x.Call.Args) == 1 {
+				if elems := kit.VariadicElems(x.Call.Args[0]); len(elems) > 1 {
+					tails = elems[1:]
+				}
+			}
+		case *ssa.BinOp:
+			if x.Op == token.ADD {
+				tails = []ssa.Value{x.Y}
+			}
+		}
+		for _, t := range tails {
+			visit(t, ret.Block())
+		}
+	}
+	name := kit.FuncName(fn)
+	if len(updates) == 0 {
+		r.OK("C27.R5", name+" remainder", p.Pos(fn.Pos()), "no component is appended unresolved to a returned path")
+		return
+	}
+	for i, u := range updates {
+		ok := kit.MustPassOneOf(fn, u.loc, tests)
+		pos := p.Pos(u.v.Pos())
+		for j := len(u.loc.Instrs) - 1; pos == "-" && j >= 0; j-- {
+			pos = p.Pos(u.loc.Instrs[j].Pos())
+		}
+		if pos == "-" {
+			pos = p.Pos(fn.Pos())
+		}
+		r.Decide(ok, "C27.R5", fmt.Sprintf("%s remainder update #%d", name, i+1), pos,
+			"the component joins the remainder only after a branch on a no-follow probe (Lstat/Readlink)",
+			"a path component is moved to the remainder (the part appended as named, assumed not to exist and to contain no link) on a path that passes no branch on os.Lstat/os.Readlink evidence: a probe that follows links (os.Stat, os.Open, EvalSymlinks) reports a dangling symbolic link as missing, the link is then appended unresolved, the containment test accepts it and O_CREATE writes through it outside the destination")
+	}
+}
+
 func (cx *c27Ctx) isBarrier(v ssa.Value) bool {
 	c := c26ResultCall(v)
 	if c == nil {
@@ -373,6 +554,7 @@ func runC27(p *kit.Program, r *kit.Report) {
 	r.Rule("C27.R1", "every mutating file-system call whose path is built from a tar header's Name/Linkname receives the result of a containment resolver (paths derive from filepath.EvalSymlinks; a comparison of the resolved value with the root precedes every return)")
 	r.Rule("C27.R3", "a mutating call that follows a link in the last path component (OpenFile, MkdirAll, WriteFile, Chmod, ...) receives a fully resolved contained path; a contained path whose last component was kept as named reaches only calls that act on that name itself (Remove, Symlink/Link new name, Rename, Mkdir) or has that component stripped (filepath.Dir) first")
 	r.Rule("C27.R4", "the containment comparison is component-wise: a strings.HasPrefix between the resolved path and the root uses a prefix that provably ends with the path separator (or the test is made with filepath.Rel / equality); substring, suffix and case-insensitive comparisons are not containment tests")
+	r.Rule("C27.R5", "in a real-path resolver (a function that calls filepath.EvalSymlinks and returns resolved + remainder) a component enters the remainder - the part appended as named and assumed free of links - only where control has passed a branch on the result of a probe that does not follow links (os.Lstat, os.Readlink, or a helper made of them) - never on the word of os.Stat/os.Open/EvalSymlinks alone, which call a dangling link 'missing'")
 	r.Rule("C27.R2", "link targets: the source of a hard link passes the same barrier, and the text of a symbolic link taken from the archive is passed through a containment resolver whose error is checked before os.Symlink")
 	c27Analyse(p, r, nil, true)
 }
@@ -512,6 +694,16 @@ func c27Analyse(p *kit.Program, r *kit.Report, filter func(s c26SinkSite) bool, 
 	for _, fn := range used {
 		cx.checkContainmentPredicate(r, fn)
 	}
+	// R5: the resolvers themselves
+	nRes := 0
+	for _, fn := range p.RepoFuncs() {
+		if fn.Parent() != nil || !c27CallsEvalSymlinks(fn) || !cx.isResolverFn(fn) {
+			continue
+		}
+		nRes++
+		cx.checkRemainderEvidence(r, fn)
+	}
+	r.Count("real_path_resolver_functions", nRes)
 	r.Count("archive_paths_reaching_sinks_contained", nBar)
 	r.Count("link_following_sinks_contained", nFollow)
 	r.Count("archive_paths_reaching_sinks_uncontained", nBad)
